@@ -173,6 +173,12 @@ pub struct VfsState {
 }
 
 static STATE: Mutex<Option<VfsState>> = Mutex::new(None);
+/// raw-storage mode: lock / open / sync / delete calls of SQLite are scheduling points
+static SCHED_POINTS: std::sync::atomic::AtomicBool = std::sync::atomic::AtomicBool::new(false);
+
+pub fn set_sched_points(on: bool) {
+    SCHED_POINTS.store(on, std::sync::atomic::Ordering::SeqCst);
+}
 
 fn with<R>(f: impl FnOnce(&mut VfsState) -> R) -> R {
     let mut g = STATE.lock().unwrap();
@@ -457,6 +463,13 @@ fn capture(s: &mut VfsState, at_call: &str) {
 
 /// Called before a mutating call executes. Returns an injected error code, if any.
 fn pre_call(kind: CallKind, name: &'static str, what: &str) -> Option<c_int> {
+    if SCHED_POINTS.load(std::sync::atomic::Ordering::SeqCst) && matches!(kind, CallKind::Lock | CallKind::ShmLock | CallKind::Open | CallKind::Sync | CallKind::Delete) {
+        sched::point(Site::Vfs);
+    }
+    pre_call_inner(kind, name, what)
+}
+
+fn pre_call_inner(kind: CallKind, name: &'static str, what: &str) -> Option<c_int> {
     with(|s| {
         s.total_calls += 1;
         *s.calls.entry(name).or_insert(0) += 1;
